@@ -220,8 +220,89 @@ def c_keep(i, seed):
     return True
 
 
+def seq_group(pid, ob_id, what, call, point_specs, oracle, marker, tier, temporaries=False):
+    """the same input solved on ellipsoid 1, then on ellipsoid 2, then on ellipsoid 1 again inside one symbolic run (module state carries over
+    between the calls exactly as in one process): the second result must be the first result's term with (a, 1/f) replaced by (a2, 1/f2),
+    the third must be the first one (decided as identities; compared only on paths where the calls took the same number of passes)"""
+    gc, gd, ga = _mods()
+
+    def run():
+        a = fresh_real('a', 6300000, 6400000)
+        invf = fresh_real('invf', 280, 320)
+        a2 = fresh_real('a2', 6300000, 6400000)
+        invf2 = fresh_real('invf2', 280, 320)
+        pts = [fresh_real(k, lo, hi) for k, lo, hi in point_specs]
+        c = core.ctx()
+        if temporaries:
+            # short-lived ellipsoid objects, each dropped before the next one is built (as in `f(..., Ellipsoid(a, invf))`): the
+            # interpreter is free to give the next object the identity (address) of the previous one
+            m0 = len(c.pc)
+            o1 = call(gd, pts, gc.Ellipsoid(a, invf))
+            m1 = len(c.pc)
+            o2 = call(gd, pts, gc.Ellipsoid(a2, invf2))
+            m2 = len(c.pc)
+            o3 = call(gd, pts, gc.Ellipsoid(a, invf))
+        else:
+            ell = gc.Ellipsoid(a, invf)
+            ell2 = gc.Ellipsoid(a2, invf2)
+            m0 = len(c.pc)
+            o1 = call(gd, pts, ell)
+            m1 = len(c.pc)
+            o2 = call(gd, pts, ell2)
+            m2 = len(c.pc)
+            o3 = call(gd, pts, ell)
+        return (a, invf, a2, invf2), (m0, m1, m2, len(c.pc)), o1, o2, o3
+    paths, st = explore(run, loop_bound=(1 if tier == 'quick' else 2), max_decisions=40, max_paths=60)
+    out = []
+    dom = dict(DOM, a2=DOM['a'], invf2=DOM['invf'])
+    mk = lambda env: {'env': env, 'temporaries': temporaries}
+    n = 0
+    for p in paths:
+        if p.kind != 'return':
+            continue
+        (a, invf, a2, invf2), (m0, m1, m2, m3), o1, o2, o3 = p.value
+        cnt = lambda lo, hi: sum(1 for c_ in p.pc[lo:hi] if marker in str(c_))
+        k1 = cnt(m0, m1)
+        sub = lambda t: z3.substitute(t, (toz(a), toz(a2)), (toz(invf), toz(invf2)))
+        # the two calls are comparable when they took the same branches: the first call's ellipsoid-dependent decisions and the second
+        # call's decisions have the same number and the same outcomes (decisions free of the ellipsoid are shared, not repeated). The
+        # decision TERMS are not compared here: that they correspond is part of what the identity below decides.
+        names = lambda t: set(solve.free_vars([t]))
+        d1 = [c_ for c_ in p.pc[m0:m1] if names(c_) & {'a', 'invf'}]
+        d2 = list(p.pc[m1:m2])
+        same_branches = len(d1) == len(d2) and all(z3.is_not(x) == z3.is_not(y) for x, y in zip(d1, d2))
+        if not all(isinstance(v, SymReal) for v in tuple(o1) + tuple(o2)):
+            continue
+        n += 1
+        for i in range(len(o1)):
+            out.append(ob.decide_close(ob_id, '%s: third call (first ellipsoid again) repeats the first result (output %d)' % (what, i), p, o3[i], o1[i],
+                                       0, pid=pid, key='%s:sequence' % ob_id, oracle=oracle, domain=dom, make_args=mk, timeout_s=QT[tier]))
+            if not same_branches:
+                continue
+            exp = SymReal(sub(toz(o1[i])))
+            if i == 0:
+                for x, y in zip(d1, d2):
+                    out.append(ob.decide_goal(ob_id, '%s: second call on another ellipsoid takes its branches on the first call\'s conditions with (a, 1/f) '
+                                              'replaced' % what, ob.path_conds(p), sub(x) == y, pid=pid, oracle=oracle, args_from_model=mk,
+                                              key='%s:sequence' % ob_id, timeout_s=QT[tier]))
+            out.append(ob.decide_close(ob_id, '%s: second call on another ellipsoid = the first result with (a, 1/f) replaced (output %d, %d passes)'
+                                       % (what, i, k1), p, o2[i], exp, 0, pid=pid, key='%s:sequence' % ob_id, oracle=oracle, domain=dom,
+                                       make_args=mk, timeout_s=QT[tier]))
+    if n == 0:
+        out.append(ob.res(ob_id, '%s: two-ellipsoid call sequence' % what, 'inconclusive', [], 'no returning path with symbolic results'))
+    return out
+
+
+def g_sequence(tier, seed, temporaries=False):
+    return seq_group(PID, 'O2', 'vincdir' + (' (temporary ellipsoid objects)' if temporaries else ''),
+                     lambda gd, v, e: gd.vincdir(v[0], v[1], v[2], v[3], e),
+                     (('lat1', -90, 90), ('lon1', -180, 180), ('az', 0, 360), ('s', 0, 20000000)), 'oracles.c04:direct_sequence',
+                     '1/1000000000000', tier, temporaries)
+
+
 def groups(tier):
-    gs = [('direct', g_direct), ('direct_objects', g_direct_objects), ('cap', g_cap)]
+    gs = [('direct', g_direct), ('direct_objects', g_direct_objects), ('cap', g_cap), ('sequence', g_sequence),
+          ('sequence_temporaries', lambda tier, seed: g_sequence(tier, seed, True))]
     for c in ('HPAngle', 'GONAngle', 'DMSAngle', 'DDMAngle', 'DECAngle'):
         gs.append(('argforms_%s' % c, (lambda c: (lambda tier, seed: g_argforms(tier, seed, c)))(c)))
     return gs
